@@ -428,7 +428,7 @@ func isMuArg(w *World, args []ssa.Value) bool {
 		return false
 	}
 	g, ok := args[0].(*ssa.Global)
-	return ok && g.Pkg != nil && g.Pkg.Pkg.Path() == modPath+"/xpath" && g.Name() == "mu"
+	return ok && g.Pkg != nil && g.Pkg.Pkg.Path() == modPath+"/xpath" && nm(g) == "mu"
 }
 
 func c06Globals(w *World, r *Report) { c06GlobalsRule(w, r, "R06.3") }
@@ -495,7 +495,7 @@ func c06GlobalsIn(w *World, r *Report, rule string, keys []string) {
 						// container mutators …) applied to a package-level object writes it
 						if ext := cc.StaticCallee(); ext != nil && !eff.inModule(ext) && !isPureExternal(ext) && ext.Pkg != nil && ext.Pkg.Pkg.Path() != "sync/atomic" {
 							isLock := ext.Pkg.Pkg.Path() == "sync" && (strings.HasSuffix(ext.Name(), "Lock") || strings.HasSuffix(ext.Name(), "Unlock"))
-							isLoad := ext.Pkg.Pkg.Path() == "sync" && (ext.Name() == "Load" || ext.Name() == "Range")
+							isLoad := ext.Pkg.Pkg.Path() == "sync" && (nm(ext) == "Load" || nm(ext) == "Range")
 							if !isLock && !isLoad {
 								for g := range gl {
 									if g.Pkg != nil && inScope[g.Pkg] {
@@ -574,7 +574,7 @@ func c06GlobalsIn(w *World, r *Report, rule string, keys []string) {
 	sort.Slice(gs, func(i, j int) bool { return gs[i].String() < gs[j].String() })
 	nRO := 0
 	for _, g := range gs {
-		if g.Name() == "mu" || strings.HasPrefix(g.Name(), "init$") {
+		if nm(g) == "mu" || strings.HasPrefix(g.Name(), "init$") {
 			continue
 		}
 		name := strings.TrimPrefix(g.String(), modPath+"/")
